@@ -75,6 +75,67 @@ def within_edges(f, cmp, small_txt, big_txt, strict_ok=True):
     return []
 
 
+def within_when_true(cmp, small_txt, big_txt):
+    """does the comparison's value `true` mean small <= big (or <)?"""
+    i, dest, op, l, r = cmp
+    lt, rt = full(strip_casts(l)), full(strip_casts(r))
+    return (lt == small_txt and rt == big_txt and op in ("Lt", "Le")) or (lt == big_txt and rt == small_txt and op in ("Gt", "Ge"))
+
+
+def effective_sites(f, i, st):
+    """Where must the guards of a constructed Number hold?  Normally at the construction (block i).  With the eager idiom
+    `cond.then_some(Number::Fraction{..})` the value is built unconditionally and only RETURNED when `cond` is true: the guards
+    must then hold where `cond` receives a value that can be true — and the last conjunct of `a && b && c` is not a branch at
+    all, it is the value stored into `cond` (returned as `finals`)."""
+    A = st["place"]["l"]
+    aliases = {A}
+    for _ in range(3):
+        for bi, bj, s2 in f.iter_stmts():
+            if s2["k"] == "assign" and not s2["place"]["p"] and s2["rv"]["k"] == "use":
+                q = s2["rv"]["op"].get("move") or s2["rv"]["op"].get("copy")
+                if q is not None and not q["p"] and q["l"] in aliases:
+                    aliases.add(s2["place"]["l"])
+    for b, t in f.calls():
+        if (callee_key(t) or "").endswith(("bool::then_some", "<impl bool>::then_some")) and len(t.get("args", [])) == 2:
+            q = t["args"][1].get("move") or t["args"][1].get("copy")
+            if q is None or q["p"] or q["l"] not in aliases:
+                continue
+            c = t["args"][0].get("move") or t["args"][0].get("copy")
+            if c is None or c["p"]:
+                continue
+            sites, finals = [], set()
+            work, seen = [c["l"]], set()
+            while work:
+                l = work.pop()
+                if l in seen:
+                    continue
+                seen.add(l)
+                for d0 in f.defs.get(l, []):
+                    if d0[0] != "stmt":
+                        continue
+                    rv = d0[3]["rv"]
+                    if rv["k"] == "use":
+                        cst = rv["op"].get("const")
+                        if cst is not None:
+                            if cst.get("bits") == "1":
+                                sites.append(d0[1])
+                            continue                      # `false`: the value is not returned on this path
+                        q2 = rv["op"].get("move") or rv["op"].get("copy")
+                        if q2 is not None and not q2["p"]:
+                            nd = f.defs.get(q2["l"], [])
+                            if len(nd) == 1 and nd[0][0] == "stmt" and nd[0][3]["rv"]["k"] == "bin":
+                                sites.append(d0[1])
+                                finals.add(q2["l"])
+                            else:
+                                work.append(q2["l"])
+                    elif rv["k"] == "bin":
+                        sites.append(d0[1])
+                        finals.add(l)
+            if sites:
+                return sites, finals
+    return [i], set()
+
+
 def run(chk: harness.Check):
     paths, th = harness.mir_facts("Q")
     F = Facts(paths)
@@ -142,8 +203,11 @@ def run(chk: harness.Check):
     for i, s, d in fracs:
         where = f"{f.file}:{s.get('line')}"
         tag = _tag(f, d)
+        sites, finals = effective_sites(f, i, s)
+        def dom(edges):
+            return all(any(f.edge_dominates(e, site) for e in edges) for site in sites)
         whole_txt = full(strip_casts(resolve(f, d["whole"])))
-        ok = any(any(f.edge_dominates(e, i) for e in within_edges(f, c, whole_txt, "max_whole")) for c in cmps)
+        ok = any(dom(within_edges(f, c, whole_txt, "max_whole")) or (c[1] in finals and within_when_true(c, whole_txt, "max_whole")) for c in cmps)
         chk.expect(ok, "C12.D2-limits", f"new_approx|{tag}|whole<=max_whole", where,
                    f"a Fraction with whole part `{whole_txt[:60]}` is returned on a path where it was not compared against max_whole",
                    sample=f"{where}: whole `{whole_txt[:40]}` ≤ max_whole dominates")
@@ -158,16 +222,16 @@ def run(chk: harness.Check):
                     ot = full(other)
                     if "accuracy" in ot and "value" in ot and "Mul" in ot:
                         es = within_edges(f, c, full(st), full(strip_casts(other)))
-                        if any(f.edge_dominates(e, i) for e in es):
+                        if dom(es) or (c[1] in finals and within_when_true(c, full(st), full(strip_casts(other)))):
                             okerr = True
         chk.expect(okerr, "C12.D2-limits", f"new_approx|{tag}|err<=accuracy*value", where,
                    "a Fraction is returned on a path where |err| was not compared against accuracy · value",
                    sample=f"{where}: |err| within accuracy·value dominates")
         # positive & finite
         pos = [c for c in cmps if full(c[3]) == "value" and full(c[4]) in ("0.0", "0")]
-        okpos = any(any(f.edge_dominates(e, i) for e in (bool_edges(f, c[1])[1] if c[2] in ("Le", "Lt") else bool_edges(f, c[1])[0])) for c in pos)
+        okpos = any(dom(bool_edges(f, c[1])[1] if c[2] in ("Le", "Lt") else bool_edges(f, c[1])[0]) for c in pos)
         fin = calls_to(f, "f64>::is_finite")
-        okfin = any(any(f.edge_dominates(e, i) for e in call_result_edges(f, b)[0]) for b, t in fin)
+        okfin = any(dom(call_result_edges(f, b)[0]) for b, t in fin)
         chk.expect(okpos and okfin, "C12.D2-limits", f"new_approx|{tag}|positive-finite", where,
                    f"a Fraction is returned without excluding non-positive (ok={okpos}) or non-finite (ok={okfin}) input",
                    sample=f"{where}: value > 0 and is_finite() dominate")
